@@ -69,12 +69,13 @@ def _ident(stream):
     return stream
 
 
-def build_chain(ops, rec):
-    """ops -> (Transformer, buffers). rec collects, per select, the list of Path.test() results"""
-    from genshi.filters.transform import Transformer, StreamBuffer
+MAPTEXT = {'rev': lambda d: d[::-1], 'dup': lambda d: d + d}
+
+
+def rec_path_class(rec):
+    """a Path subclass that records, per select link (keyed by its index in the chain), the list of
+    Path.test() results into `rec`"""
     from genshi.path import Path
-    from genshi.core import TEXT
-    from genshi.builder import Element
 
     class RecPath(Path):
         idx = None
@@ -98,50 +99,69 @@ def build_chain(ops, rec):
                 return r
             return _t
 
+    return RecPath
+
+
+def apply_op(t, i, op, bufs, RecPath):
+    """the Transformer derived from `t` (None: a fresh one) by operation `op`, the i-th link"""
+    from genshi.filters.transform import Transformer, StreamBuffer
+    from genshi.core import TEXT
+    from genshi.builder import Element
+
+    def buf(k):
+        if k not in bufs:
+            bufs[k] = StreamBuffer()
+        return bufs[k]
+
+    name = op[0]
+    if name == 'select':
+        p = RecPath(G.path_str(op[1]))
+        p.idx = i
+        return Transformer(p) if t is None else t.select(p)
+    if name in ('replace', 'before', 'after', 'prepend', 'append'):
+        return getattr(t, name)(_content(op[1], bufs))
+    if name == 'wrap':
+        if op[2]:
+            return t.wrap(Element(op[1], **dict((k, v) for k, v in op[2])))
+        return t.wrap(op[1])
+    if name == 'wrapel':
+        from genshi.core import Stream as _S
+        return t.wrap(Element(op[1], **dict((k, v) for k, v in op[2]))(_S(G.to_genshi(G.flatten(op[3])))))
+    if name == 'attrfn':
+        return t.attr(op[1], (lambda src: lambda name_, ev: ev[1][1].get(src))(op[2]))
+    if name == 'rename':
+        return t.rename(op[1])
+    if name == 'attr':
+        return t.attr(op[1], op[2])
+    if name == 'copy':
+        return t.copy(buf(op[1]), accumulate=op[2])
+    if name == 'cut':
+        return t.cut(buf(op[1]), accumulate=op[2])
+    if name == 'map':
+        return t.map(_bang, TEXT if op[1] == 'T' else None)
+    if name == 'substitute':
+        return t.substitute(op[1], op[2], op[3])
+    if name == 'filter':
+        return t.filter(_dropc if op[1] == 'dropc' else _ident)
+    if name == 'maptext':
+        return t.map(MAPTEXT[op[1]], TEXT)
+    if name == 'trace':
+        import io
+        log = io.StringIO()
+        bufs.setdefault('trace', []).append(log)        # (not a StreamBuffer: skipped where buffers are listed)
+        return t.trace('T ', fileobj=log)
+    if name in ('remove', 'unwrap', 'empty', 'invert', 'end', 'buffer'):
+        return getattr(t, name)()
+    raise ValueError(op)
+
+
+def build_chain(ops, rec):
+    """ops -> (Transformer, buffers). rec collects, per select, the list of Path.test() results"""
+    RecPath = rec_path_class(rec)
     bufs = {}
-
-    def buf(i):
-        if i not in bufs:
-            bufs[i] = StreamBuffer()
-        return bufs[i]
-
     t = None
     for i, op in enumerate(ops):
-        name = op[0]
-        if name == 'select':
-            p = RecPath(G.path_str(op[1]))
-            p.idx = i
-            t = Transformer(p) if t is None else t.select(p)
-        elif name in ('replace', 'before', 'after', 'prepend', 'append'):
-            t = getattr(t, name)(_content(op[1], bufs))
-        elif name == 'wrap':
-            if op[2]:
-                t = t.wrap(Element(op[1], **dict((k, v) for k, v in op[2])))
-            else:
-                t = t.wrap(op[1])
-        elif name == 'wrapel':
-            from genshi.core import Stream as _S
-            t = t.wrap(Element(op[1], **dict((k, v) for k, v in op[2]))(_S(G.to_genshi(G.flatten(op[3])))))
-        elif name == 'attrfn':
-            t = t.attr(op[1], (lambda src: lambda name_, ev: ev[1][1].get(src))(op[2]))
-        elif name == 'rename':
-            t = t.rename(op[1])
-        elif name == 'attr':
-            t = t.attr(op[1], op[2])
-        elif name == 'copy':
-            t = t.copy(buf(op[1]), accumulate=op[2])
-        elif name == 'cut':
-            t = t.cut(buf(op[1]), accumulate=op[2])
-        elif name == 'map':
-            t = t.map(_bang, TEXT if op[1] == 'T' else None)
-        elif name == 'substitute':
-            t = t.substitute(op[1], op[2], op[3])
-        elif name == 'filter':
-            t = t.filter(_dropc if op[1] == 'dropc' else _ident)
-        elif name in ('remove', 'unwrap', 'empty', 'invert', 'end', 'buffer'):
-            t = getattr(t, name)()
-        else:
-            raise ValueError(op)
+        t = apply_op(t, i, op, bufs, RecPath)
     return t, bufs
 
 
@@ -180,9 +200,13 @@ def jmark(m):
 def run_real(doc, ops):
     """-> dict(status 'ok'|'err', marked [[mark, event]...], err, bufs {id: events}, rec [[result...]...])"""
     rec = {}
+    t, bufs = build_chain(ops, rec)       # a malformed case raises here: not an outcome of the code under test
+    return run_transformer(doc, t, bufs, rec)
+
+
+def run_transformer(doc, t, bufs, rec):
     out = {'status': 'ok', 'marked': [], 'err': None, 'bufs': {}, 'rec': rec}
     events = G.to_genshi(G.flatten(doc))
-    t, bufs = build_chain(ops, rec)       # a malformed case raises here: not an outcome of the code under test
     try:
         with Watchdog():
             for mark, ev in t(events, keep_marks=True):
@@ -194,11 +218,83 @@ def run_real(doc, ops):
         out['status'] = 'err'
         out['err'] = 'NoTermination'
         out['marked'] = out['marked'][:50]
-        for b in bufs.values():
-            b.reset()                 # may hold millions of events
-    for i, b in sorted(bufs.items()):
+        for i, b in bufs.items():
+            if i != 'trace':
+                b.reset()                 # may hold millions of events
+    for i, b in sorted((i, b) for i, b in bufs.items() if i != 'trace'):
         out['bufs'][i] = G.from_genshi(list(b))
+    out['trace'] = [len(log.getvalue().splitlines()) for log in bufs.get('trace', [])]
     return out
+
+
+OPCLASS = {'select': 'SelectTransformation', 'remove': 'RemoveTransformation', 'unwrap': 'UnwrapTransformation',
+           'empty': 'EmptyTransformation', 'invert': 'InvertTransformation', 'end': 'EndTransformation',
+           'buffer': 'BufferTransformation', 'wrap': 'WrapTransformation', 'wrapel': 'WrapTransformation',
+           'replace': 'ReplaceTransformation', 'before': 'BeforeTransformation', 'after': 'AfterTransformation',
+           'prepend': 'PrependTransformation', 'append': 'AppendTransformation', 'rename': 'RenameTransformation',
+           'attr': 'AttrTransformation', 'attrfn': 'AttrTransformation', 'copy': 'CopyTransformation',
+           'cut': 'CutTransformation', 'map': 'MapTransformation', 'substitute': 'SubstituteTransformation',
+           'filter': 'FilterTransformation', 'trace': 'TraceTransformation', 'maptext': 'MapTransformation'}
+
+
+def run_tree(case):
+    """build the transformer objects of a derivation tree on the real code (derived from each other,
+    sharing prefixes), record after every derivation the links of ALL objects built so far, then
+    apply the objects named in case['apply'].
+    -> (history: [[[link class names] per object] per derivation], runs: [(node, ops, real)])"""
+    rec = {}
+    RecPath = rec_path_class(rec)
+    bufs = {}
+    chains = G.tree_chains(case)
+    nodes = [apply_op(None, 0, chains[0][0], bufs, RecPath)]
+    history = []
+    for k, (parent, op) in enumerate(case['derive']):
+        nodes.append(apply_op(nodes[parent], len(chains[parent]), op, bufs, RecPath))
+        history.append([[type(l).__name__ for l in t.transforms] for t in nodes])
+    runs = []
+    for k in case['apply']:
+        for i, b in bufs.items():
+            if i != 'trace':
+                b.reset()
+        for log in bufs.get('trace', []):
+            log.seek(0)
+            log.truncate()
+        rec.clear()
+        real = run_transformer(case['doc'], nodes[k], bufs, rec)
+        real['rec'] = dict((i, list(v) if isinstance(v, list) else v) for i, v in rec.items())
+        real['bufs'] = dict((i, b) for i, b in real['bufs'].items() if any(o[0] in ('copy', 'cut') and o[1] == i
+                                                                          for o in chains[k]))
+        runs.append((k, chains[k], real))
+    return history, runs
+
+
+def same_outcome(a, b):
+    if a['status'] != b['status']:
+        return False
+    if a['status'] != 'ok':
+        return a['err'] == b['err']
+    return a['marked'] == b['marked'] and a['bufs'] == b['bufs']
+
+
+def oracle_tree(case, tree=None):
+    """every transformer object behaves like the same chain built from a fresh Transformer(path),
+    whatever was derived from it or from its origin before; and the clauses of the property hold
+    for the object as it is (a transformer that only selects is the identity, ...)"""
+    history, runs = tree if tree is not None else run_tree(case)
+    for k, ops, real in runs:
+        fresh = run_real(case['doc'], ops)
+        if not same_outcome(real, fresh):
+            what = 'a transformer that only selects is the identity' if len(ops) == 1 else \
+                'a transformer changes only what its own operations select'
+            return fail(case, what + ' (transformer %d of the derivation tree, used after other transformers were '
+                        'derived from it or its origin, vs. the same chain built fresh)' % k,
+                        _short([fresh['status'], fresh['err'], unmark(fresh['marked']), sorted(fresh['bufs'].items())]),
+                        _short([real['status'], real['err'], unmark(real['marked']), sorted(real['bufs'].items())]))
+        f = oracle_chain({'kind': 'chain', 'doc': case['doc'], 'ops': ops}, real)
+        if f:
+            f['case'] = case
+            return f
+    return None
 
 
 def unmark(marked):
@@ -256,13 +352,30 @@ def oracle_chain(case, real=None):
         if out != inp:
             return fail(case, 'selections only: identity', _short(inp), _short(out))
         return None
+    if names == ['select', 'trace'] and real.get('trace') is not None and \
+            [n for n in real['trace'] if n] != [len(real['marked'])][:len(real['marked'])]:
+        return fail(case, 'trace prints one line per item it passes on', [len(real['marked'])], real.get('trace'))
     if len(ops) == 2 and names[0] == 'select' and names[1] not in ('select', 'invert', 'end', 'buffer', 'map',
                                                                       'substitute', 'filter'):
-        if len(doc) != 1:
-            # a prolog node in front of the root element shifts the context of SimplePathStrategy
-            # (it pushes a stack entry for a non-START event): path semantics there is C05/C17's
-            return None
-        ev = G.evaluate(doc, ops[0][1])
+        if 'text' in ops[0][1] or not G.plain_doc(doc):
+            # a path of the shared grammar, or a document with namespace / DOCTYPE / CDATA events: XPath
+            # semantics is C05/C17's; the selection is what the transformer that ONLY selects marks (a
+            # with/without comparison on the real code: select-only, then select + operation)
+            only = run_real(doc, [ops[0]])
+            if only['status'] != 'ok':
+                return None
+            ev = G.selection_from_marks(doc, only['marked'])
+            if ev is None:
+                return fail(case, 'a transformer that only selects is the identity', _short(inp),
+                            _short(unmark(only['marked'])))
+            by_marks = True
+        else:
+            if len(doc) != 1:
+                # a prolog node in front of the root element shifts the context of SimplePathStrategy
+                # (it pushes a stack entry for a non-START event): path semantics there is C05/C17's
+                return None
+            ev = G.evaluate(doc, ops[0][1])
+            by_marks = False
         sel, selattrs = ev
         op = ops[1]
         if op[0] in INJ and op[1][0] == 'buf':
@@ -270,7 +383,7 @@ def oracle_chain(case, real=None):
         exp = G.spec_apply(doc, sel, selattrs, op)
         if exp is None:
             return None
-        if op[0] in ('remove', 'copy', 'cut', 'empty', 'unwrap', 'rename', 'attr', 'attrfn'):
+        if op[0] in ('remove', 'copy', 'cut', 'empty', 'unwrap', 'rename', 'attr', 'attrfn', 'trace', 'maptext'):
             if out != exp:
                 return fail(case, WHAT[op[0]], _short(exp), _short(out))
         else:
@@ -287,6 +400,8 @@ def oracle_chain(case, real=None):
                     got.append(e)
             if got != want:
                 return fail(case, 'the buffer receives exactly what selection returns', _short(want), _short(got))
+            if by_marks:
+                return None
             # and Path.select on the real code agrees with the tree evaluator
             from genshi.path import Path
             from genshi.core import Stream, _ensure
@@ -301,6 +416,8 @@ WHAT = {
     'remove': 'removal deletes exactly the selected nodes',
     'cut': 'cut deletes exactly the selected nodes',
     'copy': 'copy leaves the stream unchanged',
+    'trace': 'trace leaves the stream unchanged',
+    'maptext': 'map(function, TEXT) changes exactly the selected text',
     'empty': 'empty removes the content of the selected elements only',
     'unwrap': 'unwrap removes exactly the START/END of the selected elements',
     'rename': 'rename changes exactly the tag of the selected elements',
@@ -565,6 +682,18 @@ def valid_forest(nodes):
         elif k == 'p':
             if len(n) != 3 or not isinstance(n[1], str) or not n[1] or not isinstance(n[2], str):
                 return False
+        elif k == 'ns':
+            if len(n) != 3 or not isinstance(n[1], str) or not isinstance(n[2], str):
+                return False
+        elif k == 'ens':
+            if len(n) != 2 or not isinstance(n[1], str):
+                return False
+        elif k == 'd':
+            if len(n) != 4 or not isinstance(n[1], str) or not all(x is None or isinstance(x, str) for x in n[2:]):
+                return False
+        elif k in ('sc', 'ec'):
+            if len(n) != 1:
+                return False
         else:
             return False
     return True
@@ -572,6 +701,8 @@ def valid_forest(nodes):
 
 def valid_path(p):
     try:
+        if 'text' in p:
+            return list(p) == ['text'] and isinstance(p['text'], str) and G.text_path_ok(p['text'])
         if not p['alts']:
             return False
         for alt in p['alts']:
@@ -600,7 +731,7 @@ def valid_path(p):
         return False
 
 
-ARITY = {'wrapel': 4, 'attrfn': 3, 'select': 2, 'remove': 1, 'unwrap': 1, 'empty': 1, 'invert': 1, 'end': 1, 'buffer': 1, 'wrap': 3,
+ARITY = {'trace': 1, 'maptext': 2, 'wrapel': 4, 'attrfn': 3, 'select': 2, 'remove': 1, 'unwrap': 1, 'empty': 1, 'invert': 1, 'end': 1, 'buffer': 1, 'wrap': 3,
          'replace': 2, 'before': 2, 'after': 2, 'prepend': 2, 'append': 2, 'rename': 2, 'attr': 3, 'copy': 3,
          'cut': 3, 'map': 2, 'substitute': 4, 'filter': 2}
 
@@ -649,6 +780,8 @@ def valid_case(case):
                     return False
                 if op[0] in ('copy', 'cut') and not (isinstance(op[1], int) and isinstance(op[2], bool)):
                     return False
+                if op[0] == 'maptext' and op[1] not in MAPTEXT:
+                    return False
                 if op[0] == 'substitute' and not (isinstance(op[1], str) and op[1].isalnum() and
                                                   isinstance(op[2], str) and '\\' not in op[2] and isinstance(op[3], int)):
                     return False
@@ -660,13 +793,57 @@ def valid_case(case):
             return isinstance(case.get('passwords', False), bool)
         if k == 'other':
             return case.get('filter') in ('sanitizer', 'translator', 'empty', 'whitespace', 'nsflat', 'doctype')
+        if k == 'tree':
+            if not valid_path(case['root']):
+                return False
+            n = 1
+            for d in case['derive']:
+                if len(d) != 2 or not isinstance(d[0], int) or not 0 <= d[0] < n:
+                    return False
+                n += 1
+            if not all(isinstance(a, int) and 0 <= a < n for a in case['apply']) or not case['apply']:
+                return False
+            return all(valid_case({'kind': 'chain', 'doc': case['doc'], 'ops': ops}) and
+                       all(o[0] != 'buffer' and not (o[0] in INJ and o[1][0] == 'buf') for o in ops)
+                       for ops in G.tree_chains(case))
         return False
     except (KeyError, TypeError, IndexError, AttributeError):
         return False
 
 
+_FINDING_INPUTS = None
+
+
+def finding_inputs():
+    """the canonical inputs of the recorded findings (they are outside the oracle's domain on purpose)"""
+    global _FINDING_INPUTS
+    if _FINDING_INPUTS is None:
+        import os
+        path = os.path.join(os.path.dirname(os.path.dirname(os.path.dirname(os.path.abspath(__file__)))), 'findings', 'C20.json')
+        try:
+            _FINDING_INPUTS = set(json.dumps(e['input'], sort_keys=True) for e in json.load(open(path)))
+        except Exception:  # noqa
+            _FINDING_INPUTS = set()
+    return _FINDING_INPUTS
+
+
+def in_domain(case):
+    """inside the hypotheses of the oracle (what the generators keep): shrinking must not wander into the
+    class of a recorded finding, whose inputs fail on the unchanged tree as well"""
+    k = case.get('kind')
+    if json.dumps(case, sort_keys=True) in finding_inputs():
+        return True
+    if k == 'chain':
+        return G.chain_in_domain(case['ops'])
+    if k == 'tree':
+        return all(G.chain_in_domain(ops) for ops in G.tree_chains(case))
+    if k == 'form':
+        return G.form_in_domain(case)
+    return True
+
+
 def oracle_case(case):
-    if not valid_case(case):
+    if not valid_case(case) or not in_domain(case):
         raise Malformed()
     k = case.get('kind')
     if k in ('chainx', 'formx'):
@@ -677,6 +854,8 @@ def oracle_case(case):
         return oracle_form(case)
     if k == 'other':
         return oracle_other(case)
+    if k == 'tree':
+        return oracle_tree(case)
     raise ValueError(k)
 
 
@@ -707,6 +886,16 @@ def w_event(e):
         return [Atom('AT'), w_qn(e[1]), w_attrs(e[2])]
     if k == 'BR':
         return Atom('BR')
+    if k == 'NS':
+        return [Atom('NS'), e[1], e[2]]
+    if k == 'ENS':
+        return [Atom('ENS'), e[1]]
+    if k == 'DT':
+        return [Atom('DT'), e[1], N if e[2] is None else e[2], N if e[3] is None else e[3]]
+    if k == 'SC':
+        return Atom('SC')
+    if k == 'EC':
+        return Atom('EC')
     raise ValueError(e)
 
 
@@ -715,6 +904,8 @@ def u_event(v):
     if isinstance(v, Atom):
         if v == 'BR':
             return ['BR']
+        if v in ('SC', 'EC'):
+            return [str(v)]
         raise ValueError(v)
     k = str(v[0])
     if k == 'S' or k == 'AT':
@@ -727,6 +918,13 @@ def u_event(v):
         return ['C', v[1]]
     if k == 'PI':
         return ['PI', v[1], v[2]]
+    if k == 'NS':
+        return ['NS', v[1], v[2]]
+    if k == 'ENS':
+        return ['ENS', v[1]]
+    if k == 'DT':
+        return ['DT', v[1], None if v[2] == 'N' and isinstance(v[2], Atom) else v[2],
+                None if v[3] == 'N' and isinstance(v[3], Atom) else v[3]]
     raise ValueError(v)
 
 
@@ -758,8 +956,10 @@ def w_op(i, op, rec):
         if rec.get(('raised', i)):
             return Atom('SELFAIL')
         return [Atom('SEL'), [w_res(jres(ev, r)) for ev, r in rec.get(i, [])]]
-    if n in ('invert', 'end', 'empty', 'remove', 'unwrap', 'buffer'):
+    if n in ('invert', 'end', 'empty', 'remove', 'unwrap', 'buffer', 'trace'):
         return Atom(n)
+    if n == 'maptext':
+        return [Atom('maptext'), Atom(op[1])]
     if n == 'wrap':
         return [Atom('wrap'), ['', op[1]], [[['', k], v] for k, v in op[2]]]
     if n == 'wrapel':
@@ -794,17 +994,33 @@ def chain_real_answer(real):
         return 'err'
     # last item: the hypothesis `chainSelOk` of the theorems (the recorded Path.test() results are
     # results that function can return) must hold on the real code
+    # ... and, for chains the stage-wise model answers, the lazy model must give the same
     return ['ok', [[m, e] for m, e in real['marked']], [[i, b] for i, b in sorted(real['bufs'].items())],
-            unmark(real['marked']), True]
+            unmark(real['marked']), True, True]
 
 
 def chain_model_answer(ans):
     if ans in ('err', 'unmodelled', 'bad-op', 'bad-line'):
         return ans
     v = proto.dec(ans)
+    if v[0] == 'err':
+        # stage-wise model: an exception; the lazy model must fail as well
+        return 'err' if v[1] == 'T' else 'err (stage-wise) but the lazy model answers a stream'
     marked = [[None if m == 'N' else str(m), u_event(e)] for m, e in v[1]]
     bufs = [[int(i), [u_event(e) for e in b]] for i, b in v[2]]
-    return ['ok', marked, bufs, [u_event(e) for e in v[3]], v[4] == 'T']
+    # v[5]: 'lazy' = answered by the lazy model (the interleaving is observable), else: both models agree
+    return ['ok', marked, bufs, [u_event(e) for e in v[3]], v[4] == 'T', v[5] in ('T', 'lazy')]
+
+
+def derive_line(case):
+    return proto.line(Atom('C20'), Atom('derive'), Atom(OPCLASS['select']),
+                      [[p, Atom(OPCLASS[op[0]])] for p, op in case['derive']])
+
+
+def derive_model_answer(ans):
+    if ans in ('err', 'unmodelled', 'bad-op', 'bad-line'):
+        return ans
+    return [[[str(l) for l in chain] for chain in snap] for snap in proto.dec(ans)]
 
 
 def w_scalar(v):
@@ -823,8 +1039,14 @@ def form_line(case):
     return proto.line(Atom('C20'), Atom('fill'), cfg, [w_event(e) for e in G.flatten(case['doc'])])
 
 
+def spec_line(case):
+    cfg = [N if case.get('name') is None else case['name'], N if case.get('id') is None else case['id'],
+           B(case.get('passwords', False)), [[k, w_val(v)] for k, v in case['data']]]
+    return proto.line(Atom('C20'), Atom('fillspec'), cfg, [w_event(e) for e in G.flatten(case['doc'])])
+
+
 def form_model_answer(ans):
-    if ans in ('err', 'unmodelled', 'bad-op', 'bad-line'):
+    if ans in ('err', 'unmodelled', 'outside', 'bad-op', 'bad-line'):
         return ans
     v = proto.dec(ans)
     return ['ok', [u_event(e) for e in v[1]]]
@@ -840,6 +1062,16 @@ def compare(items, res):
             model = 'undecodable: %s: %s' % (type(e).__name__, ans[:200])
         if model == 'unmodelled':
             res.count('model:unmodelled')
+            continue
+        if stream.startswith('chains') and 'ops' in case:
+            lazy = not G.stagewise(case['ops'])
+            res.count('chain-model:' + ('lazy' if lazy else 'stage-wise+lazy'))
+            if lazy:
+                stream = stream + '-lazy'
+        if model == 'outside' and case.get('kind') == 'formx':
+            # the documentation semantics claims nothing outside `okForest` (the recorded findings);
+            # for kind `form` (inside the hypotheses of the oracle) `outside` is a disagreement
+            res.count('spec:outside-okForest')
             continue
         res.streams[stream] = res.streams.get(stream, 0) + 1
         if model != real:
@@ -859,6 +1091,8 @@ def gen_cases(rng, n):
             cases.append({'kind': 'chainx', 'doc': doc, 'ops': G.gen_chain(rng, 4, doc, wild=True)})
         elif r < 0.08:
             cases.append(G.gen_form_case(rng, wild=True))
+        elif r < 0.14:
+            cases.append(G.gen_tree_case(rng))
         elif r < 0.68:
             doc = G.gen_doc(rng, rng.choice([1, 2, 2, 3]))
             cases.append({'kind': 'chain', 'doc': doc, 'ops': G.gen_chain(rng, 4, doc)})
@@ -913,6 +1147,7 @@ def process(cases, res):
                 st, out = run_filler(c)
                 res.count('formx-status:' + (st if st == 'ok' else 'err:' + out))
                 items.append((c, 'forms-outside-oracle', form_line(c), ['ok', out] if st == 'ok' else 'err', form_model_answer))
+                items.append((c, 'formspec-outside-oracle', spec_line(c), ['ok', out] if st == 'ok' else 'err', form_model_answer))
             elif c['kind'] == 'chain':
                 real = run_real(c['doc'], c['ops'])
                 f = oracle_chain(c, real)
@@ -921,10 +1156,13 @@ def process(cases, res):
                     res.count('op:' + o[0])
                 res.count('chain-status:' + real['status'] + (':' + real['err'] if real['err'] else ''))
                 hits = [sum(1 for _, r in v if r is True or r) for k_, v in sorted((k2, v2) for k2, v2 in real['rec'].items() if isinstance(k2, int))]
-                if any(isinstance(k2, tuple) for k2 in real['rec']):
+                if any(isinstance(k2, tuple) and k2[0] == 'raised' for k2 in real['rec']):
                     res.count('chain:path-test-raised')
                 res.count('first-select:' + ('matches' if hits and hits[0] else 'empty'))
                 res.count('chain:' + ('in' if in_theorem_class(c['ops']) else 'outside') + '-chain_wellnested')
+                res.count('path:' + ('shared-grammar' if 'text' in c['ops'][0][1] else 'ast'))
+                for ft in sorted(G.doc_features(c['doc'])) or ['plain']:
+                    res.count('doc:' + ft)
                 if not G.admissible(c['ops']):
                     res.count('chain:outside-nesting-precondition')
                 k = chain_key(c, real)
@@ -933,6 +1171,23 @@ def process(cases, res):
                 for m in set(m for m, _ in real['marked'] if m):
                     res.count('mark:' + m)
                 items.append((c, 'chains', chain_line(c, real), chain_real_answer(real), chain_model_answer))
+            elif c['kind'] == 'tree':
+                tree = run_tree(c)
+                f = oracle_tree(c, tree)
+                history, runs = tree
+                res.count('tree-shape:' + G.tree_shape(c))
+                res.count('tree-size:%d' % (len(c['derive']) + 1))
+                res.count('tree-branching:' + ('yes' if len(set(p for p, _ in c['derive'])) < len(c['derive']) else 'no'))
+                seen = set()
+                for k, ops, real in runs:
+                    res.count('tree-apply:' + ('again' if k in seen else 'first') + (':origin' if k == 0 else ''))
+                    seen.add(k)
+                    if real['status'] == 'ok' and unmark(real['marked']) != G.flatten(c['doc']):
+                        res.nontrivial.add(json.dumps([G.tree_shape(c), k, [o[0] for o in ops]]))
+                    sub = {'kind': 'tree', 'doc': c['doc'], 'root': c['root'], 'derive': c['derive'], 'apply': [k]}
+                    items.append((sub, 'chains-derived', chain_line({'doc': c['doc'], 'ops': ops}, real),
+                                  chain_real_answer(real), chain_model_answer))
+                items.append((c, 'derive-history', derive_line(c), history, derive_model_answer))
             elif c['kind'] == 'form':
                 f = oracle_form(c)
                 st, out = run_filler(c)
@@ -940,6 +1195,7 @@ def process(cases, res):
                     res.nontrivial.add(json.dumps([c['doc'], c['data']], sort_keys=True))
                 res.count('form-status:' + (st if st == 'ok' else 'err:' + out))
                 items.append((c, 'forms', form_line(c), ['ok', out] if st == 'ok' else 'err', form_model_answer))
+                items.append((c, 'formspec', spec_line(c), ['ok', out] if st == 'ok' else 'err', form_model_answer))
             else:
                 f = oracle_other(c)
                 res.count('other:' + c['filter'])
@@ -974,7 +1230,7 @@ def shard(arg):
 def run(ctx):
     res = Result()
     nsh = 16
-    per = ctx.n(2000, 50000)
+    per = ctx.n(1500, 40000)
     for r in pmap('harness.props.c20', 'shard', [(ctx.seed, i, per) for i in range(nsh)]):
         res.merge(r)
     res.rule = ('chains: distinct (operation names, path strings, set of marks in the final marked stream, its length) with at '
